@@ -1,9 +1,8 @@
-use async_graphql_parser::types::BaseType;
-
 use crate::{
     Positioned, QueryPathSegment,
     context::QueryPathNode,
     parser::types::VariableDefinition,
+    registry::MetaTypeName,
     validation::{
         utils::is_valid_input_value,
         visitor::{Visitor, VisitorContext},
@@ -18,9 +17,9 @@ impl<'a> Visitor<'a> for DefaultValuesOfCorrectType {
         ctx: &mut VisitorContext<'a>,
         variable_definition: &'a Positioned<VariableDefinition>,
     ) {
-        if let BaseType::Named(vtype_name) = &variable_definition.node.var_type.node.base
-            && !ctx.registry.types.contains_key(vtype_name.as_str())
-        {
+        let var_type = variable_definition.node.var_type.to_string();
+        let vtype_name = MetaTypeName::concrete_typename(&var_type);
+        if !ctx.registry.types.contains_key(vtype_name) {
             ctx.report_error(
                 vec![variable_definition.pos],
                 format!(r#"Unknown type "{}""#, vtype_name),
@@ -31,7 +30,7 @@ impl<'a> Visitor<'a> for DefaultValuesOfCorrectType {
         if let Some(value) = &variable_definition.node.default_value
             && let Some(reason) = is_valid_input_value(
                 ctx.registry,
-                &variable_definition.node.var_type.to_string(),
+                &var_type,
                 &value.node,
                 QueryPathNode {
                     parent: None,
